@@ -221,7 +221,27 @@ fn bind(r: &R, pat: &Pat, elem: &Elem, copy: bool, out: &mut Vec<String>) {
     }
 }
 
+/// `?`, `return`, `break`, `continue` in a closure body act on the closure; once the body is inlined into the enclosing
+/// function they would act on that function (or loop): such a closure is not inlined (unsupported -> undecided)
+pub fn guard_inline(r: &R, c: &syn::ExprClosure) {
+    struct Esc(bool);
+    impl<'a> syn::visit::Visit<'a> for Esc {
+        fn visit_expr_try(&mut self, _: &'a syn::ExprTry) { self.0 = true; }
+        fn visit_expr_return(&mut self, _: &'a syn::ExprReturn) { self.0 = true; }
+        fn visit_expr_break(&mut self, _: &'a syn::ExprBreak) { self.0 = true; }
+        fn visit_expr_continue(&mut self, _: &'a syn::ExprContinue) { self.0 = true; }
+        fn visit_expr_closure(&mut self, _: &'a syn::ExprClosure) {}
+        fn visit_item(&mut self, _: &'a syn::Item) {}
+    }
+    let mut e = Esc(false);
+    syn::visit::Visit::visit_expr(&mut e, &c.body);
+    if e.0 {
+        r.err("closure body uses `?` / return / break / continue: inlining it would change control flow (unsupported)");
+    }
+}
+
 fn closure_body(r: &R, c: &syn::ExprClosure) -> String {
+    guard_inline(r, c);
     r.expr(&c.body)
 }
 
@@ -581,6 +601,36 @@ pub fn rw_for(r: &R, e: &Expr) -> Option<String> {
     Some(s)
 }
 
+/// R3b: `OPT.map(|p| BODY).transpose()?` where BODY is a Result: the closure's own `?`s make the closure return Err, which
+/// transpose()? then returns from the function — the same as `match OPT { Some(p) => Some(BODY?), None => None }` with the
+/// `?`s of BODY acting on the function directly.
+pub fn rw_map_transpose(r: &R, e: &Expr) -> Option<String> {
+    if !r.opts.has_rw("opt_closure") {
+        return None;
+    }
+    let t = match e {
+        Expr::Try(t) => t,
+        _ => return None,
+    };
+    let tr = match &*t.expr {
+        Expr::MethodCall(m) if m.method == "transpose" && m.args.is_empty() => m,
+        _ => return None,
+    };
+    let mp = match &*tr.receiver {
+        Expr::MethodCall(m) if m.method == "map" && m.args.len() == 1 => m,
+        _ => return None,
+    };
+    let cl = closure_of(&mp.args[0])?;
+    if cl.inputs.len() != 1 {
+        return None;
+    }
+    r.note("R3b Option::map(closure returning Result).transpose()? -> match with the closure body's `?` acting on the function");
+    let recv = r.expr(&mp.receiver);
+    let p = r.pat(&cl.inputs[0]);
+    let b = r.expr(&cl.body);
+    Some(format!("(match {} {{ Some({}) => Some(({})?), None => None }})", recv, p, b))
+}
+
 fn norm_ws(s: &str) -> String { s.chars().filter(|c| !c.is_whitespace()).collect() }
 
 fn first_line(s: &str) -> String {
@@ -607,8 +657,16 @@ pub fn rw_option(r: &R, e: &Expr) -> Option<String> {
             let d = r.expr(&mc.args[0]);
             Some(format!("(match {} {{ Ok(qx_v) => qx_v, Err(_) => {} }})", recv, d))
         }
+        "map" if mc.args.len() == 1 && r.opts.has_rw("opt_closure") && matches!(&mc.args[0], Expr::Path(_)) => {
+            // Option::map(f) with a function path: Some(v) => Some(f(v))
+            r.note("R3 Option::map(path) -> match");
+            let recv = r.expr(&mc.receiver);
+            let f = r.expr(&mc.args[0]);
+            Some(format!("(match {} {{ Some(qx_v) => Some({}(qx_v)), None => None }})", recv, f))
+        }
         "and_then" | "map" if mc.args.len() == 1 && r.opts.has_rw("opt_closure") => {
             let cl = closure_of(&mc.args[0])?;
+            guard_inline(r, cl);
             if cl.inputs.len() != 1 {
                 return None;
             }
@@ -624,6 +682,7 @@ pub fn rw_option(r: &R, e: &Expr) -> Option<String> {
         }
         "or_else" if mc.args.len() == 1 && r.opts.has_rw("opt_closure") => {
             let cl = closure_of(&mc.args[0])?;
+            guard_inline(r, cl);
             if !cl.inputs.is_empty() {
                 return None;
             }
@@ -634,6 +693,7 @@ pub fn rw_option(r: &R, e: &Expr) -> Option<String> {
         }
         "unwrap_or_else" if mc.args.len() == 1 && r.opts.has_rw("unwrap_or_else") => {
             let cl = closure_of(&mc.args[0])?;
+            guard_inline(r, cl);
             if !cl.inputs.is_empty() {
                 return None;
             }
@@ -650,6 +710,7 @@ pub fn rw_option(r: &R, e: &Expr) -> Option<String> {
         }
         "map_or" if mc.args.len() == 2 && r.opts.has_rw("opt_closure") => {
             let cl = closure_of(&mc.args[1])?;
+            guard_inline(r, cl);
             r.note("R3 Option::map_or -> match");
             let recv = r.expr(&mc.receiver);
             let d = r.expr(&mc.args[0]);
